@@ -144,6 +144,19 @@ def run(chk):
     ok = tp is not None and ctxvar is not None and rat_equal(inline_node(tp, defs), parse_expr(f"{ctxvar}.request_end - {total_start}"))
     chk.ob("O4.1", "time_period = request_end - task start", ok, tp if tp is not None else addc, "")
 
+    # the request context's start/end are the earliest send / latest response of all wire requests (shared with C18/O18.1)
+    from rules.C18 import merge_kind
+
+    chh = ctx.cls("RequestContextHolder")
+    for upd, key_, want_ in (("update_request_start", "request_start", "min"), ("update_request_end", "request_end", "max")):
+        f_ = ctx.methods(chh).get(upd)
+        if f_ is None:
+            raise AnchorMissing(f"RequestContextHolder.{upd}")
+        kind_, none_safe_, st_ = merge_kind(f_, key_)
+        chk.ob("O4.1", f"context {key_} is the {'earliest send' if want_ == 'min' else 'latest response'} of all wire requests ({want_} merge)", kind_ == want_, st_ if st_ is not None else f_,
+               f"operator: {kind_}" + ("" if kind_ == want_ else " — an operation issuing several requests (scroll pages, retries, composite) reports only part of its span as service time"),
+               key=f"{_C}:{upd}:merge:{key_}")
+
     # ---- O4.2 containment by program order --------------------------------------------------------------------------------------------------
     chk.rule("O4.2", "processing_start is taken before entering the request context, processing_end after leaving it, the runner is invoked inside it; "
              "all four timestamps come from the same monotonic clock; the issue time stamp is taken after the throttle wait", 5,
@@ -352,6 +365,7 @@ VARIANTS = [
     V("abort even on continue", "break", _D, "        if on_error == \"abort\" or fatal_error:", "        if on_error != \"continue-on-network\" or fatal_error:", "O4.6"),
     V("fatal for any transport error", "break", _D, "        if type(e) is elasticsearch.ConnectionError:\n            fatal_error = True", "        if isinstance(e, elasticsearch.TransportError):\n            fatal_error = True", "O4.6"),
     V("api error counted as one op", "break", _D, "    except elasticsearch.ApiError as e:\n        total_ops = 0", "    except elasticsearch.ApiError as e:\n        total_ops = 1", "O4.6"),
+    V("seed m3: context start merged with max", "break", _C, "min(current, new_request_start)", "max(current, new_request_start)", "O4.1"),
     # preserving
     V("keyword arguments at the call", "keep", _D, "                    request_start,\n                    latency,\n                    service_time,\n                    processing_time,\n                    throughput,\n                    total_ops,\n                    total_ops_unit,\n                    time_period,\n                    progress,\n                    request_meta_data.pop(\"dependent_timing\", None),",
       "                    request_start,\n                    latency,\n                    service_time,\n                    processing_time=processing_time,\n                    throughput=throughput,\n                    ops=total_ops,\n                    ops_unit=total_ops_unit,\n                    time_period=time_period,\n                    percent_completed=progress,\n                    dependent_timing=request_meta_data.pop(\"dependent_timing\", None),"),
